@@ -55,3 +55,14 @@ func GoodWrapLoop(n int, diffs ...int) []int {
 	}
 	return out
 }
+
+// MAKEAPPEND: the smaller array is made with a length, then appended to
+func BadShrink(old []byte, size int) []byte {
+	tmp := make([]byte, size, 2*size)
+	return append(tmp, old[:size]...)
+}
+
+func GoodShrink(old []byte, size int) []byte {
+	tmp := make([]byte, 0, 2*size)
+	return append(tmp, old[:size]...)
+}
